@@ -13,7 +13,7 @@ ENTRY_SUFFIX = (
 # Keys are the role form of a site (`rkey`): module | kind | operands with the private fields of crate-local structs rendered by
 # their type (`self.#usize`), public fields by name - so that renaming a private function or field does not orphan an entry.
 REVIEWED = {
-    'R-UNTRUSTED|bitar::archive_reader::http_reader|Overflow(Add)|p0.offset[],p0.size[],->tmp':
+    'R-UNTRUSTED|bitar::archive_reader::http_reader|Overflow(Add)|p0.offset,p0.size,->tmp':
         'offset + size of every descriptor is validated not to overflow when the archive is opened (try_init)',
     'R-UNTRUSTED|bitar::chunk_offset|Overflow(Add)|self.offset,self.size,->tmp':
         'offset + size of every descriptor is validated not to overflow when the archive is opened (try_init)',
